@@ -88,7 +88,8 @@ def main():
         shutil.copy(demo, dst)
         m = re.search(r"-run\s+(\S+)", meta["demo_run"])
         runpat = m.group(1) if m else "TestSeed"
-        tags = "-tags dev " if "-tags dev" in meta["demo_run"] else ""
+        mt = re.search(r"-tags[= ]\s*(\S+)", meta["demo_run"])
+        tags = ("-tags %s " % mt.group(1).strip("'\"")) if mt else ""
         cmd = "go test %s-count=1 -vet=off -run '%s' %s" % (tags, runpat, dpkg)
         rc1, out1 = run(cmd, moddir, 3600)
         res["ran"].append("with patch: %s -> rc=%d" % (cmd, rc1))
